@@ -46,7 +46,7 @@ static const char *relay_said(void)
     return buf;
 }
 
-struct ccase { enum leg l1, l2; int nconn; bool preload; int pattern; /* 0 ping-pong mix, 1 burst then close, 2 stalled reader */ int nmsg; bool closer_is_client; bool large; };
+struct ccase { enum leg l1, l2; int nconn; bool preload; int pattern; /* 0 ping-pong mix, 1 burst then close, 2 stalled reader */ int nmsg; bool closer_is_client; bool large; bool refuse; /* the server stops listening for a moment while its connections live */ };
 
 #define MAXC 8
 struct rconn { struct vep c, a; bool matched; bool c_closed, a_closed; int budget_c, budget_a; bool c_done, a_done; };
@@ -104,9 +104,9 @@ static void one_case(long idx, void *arg)
     else { c.l1 = msg_legs[(gi / 4) % 5]; c.l2 = msg_legs[(gi / 20) % 5]; }
     c.nconn = vrnd_p(&r, 60) ? 1 : 2 + (int)vrnd_n(&r, MAXC - 1);
     if (leg_bs(c.l1)) c.nconn = 1;          /* a byte stream has no first message to tell connections apart by */
-    c.preload = vrnd_p(&r, 50); c.pattern = (int)vrnd_n(&r, 3); c.nmsg = 5 + (int)vrnd_n(&r, 40); c.closer_is_client = vrnd_p(&r, 50); c.large = vrnd_p(&r, 35);
-    snprintf(ctx, sizeof ctx, "{\"case\":%ld,\"sub_seed\":\"%" PRIu64 "\",\"client_leg\":\"%s\",\"server_leg\":\"%s\",\"connections\":%d,\"relay_writes_shortened\":%d,\"pattern\":\"%s\",\"messages_per_side\":%d,\"closer\":\"%s\",\"large_messages\":%d}",
-             idx, ss, leg_name[c.l1], leg_name[c.l2], c.nconn, c.preload, c.pattern == 0 ? "mixed" : c.pattern == 1 ? "burst-then-close" : "stalled-reader", c.nmsg, c.closer_is_client ? "client" : "server", c.large);
+    c.preload = vrnd_p(&r, 50); c.pattern = (int)vrnd_n(&r, 3); c.nmsg = 5 + (int)vrnd_n(&r, 40); c.closer_is_client = vrnd_p(&r, 50); c.large = vrnd_p(&r, 35); c.refuse = vrnd_p(&r, 25);
+    snprintf(ctx, sizeof ctx, "{\"case\":%ld,\"sub_seed\":\"%" PRIu64 "\",\"client_leg\":\"%s\",\"server_leg\":\"%s\",\"connections\":%d,\"relay_writes_shortened\":%d,\"pattern\":\"%s\",\"messages_per_side\":%d,\"closer\":\"%s\",\"large_messages\":%d,\"server_stops_listening_for_a_moment\":%d}",
+             idx, ss, leg_name[c.l1], leg_name[c.l2], c.nconn, c.preload, c.pattern == 0 ? "mixed" : c.pattern == 1 ? "burst-then-close" : "stalled-reader", c.nmsg, c.closer_is_client ? "client" : "server", c.large, c.refuse);
     VLOG("case %s", ctx);
     char a1[700], a2[700];
     if (mk_addr(c.l1, a1, sizeof a1, "front", NULL) < 0 || mk_addr(c.l2, a2, sizeof a2, "back", NULL) < 0) { vobs("setup_failed", 1); vcase_done(false); return; }
@@ -123,6 +123,7 @@ static void one_case(long idx, void *arg)
     pid_t rp = fork();
     if (rp == 0) {
         int fd = open(errf, O_WRONLY | O_CREAT | O_TRUNC, 0600); if (fd >= 0) { dup2(fd, 2); dup2(fd, 1); close(fd); }
+        for (int k = 3; k < 1024; k++) close(k);      /* the relay does not inherit the harness server's listening socket */
         setenv("ASAN_OPTIONS", "abort_on_error=1:detect_leaks=0", 1); setenv("UBSAN_OPTIONS", "print_stacktrace=1", 1);     /* reports to stderr = the file above */
         if (c.preload) {
             const char *asan = getenv("VERIF_LIBASAN"); snprintf(pre, sizeof pre, "%s%s%s/libvpreload.so", asan ? asan : "", asan ? ":" : "", getenv("VERIF_BUILD"));
@@ -181,6 +182,22 @@ static void one_case(long idx, void *arg)
     if (matched < c.nconn && strstr(relay_said(), "Address already in use")) { vobs("setup_failed", 1); goto out; }      /* another process took the port between choosing and binding it */
     if (matched < c.nconn) { int st; if (waitpid(rp, &st, WNOHANG) == rp) { rp = -1; cv("relay-exited", "during-setup", "xcmrelay exited (status 0x%x) while connections were being set up; it said: %s", st, relay_said()); } else vobs("setup_failed", 1); goto out; }
     vobs("relayed_connections", c.nconn);
+    if (c.refuse) {
+        /* the server behind the relay stops listening for a moment (its connections stay).  A newcomer cannot be connected onward and the relay
+         * drops it; that is the newcomer's problem alone: the established connections carry on below, and the relay serves again afterwards */
+        vx_close(&S); S.closed_by_us = false;
+        struct xcm_attr_map *cm = xcm_attr_map_create(); xcm_attr_map_add_bool(cm, "xcm.blocking", false); if (bs) xcm_attr_map_add_str(cm, "xcm.service", "bytestream");
+        const char *ca = a1; char ca2[700]; if (c.l1 == L_UTLS) { snprintf(ca2, sizeof ca2, "tls:%s", strchr(a1, ':') + 1); ca = ca2; }
+        struct xcm_socket *n2 = xcm_connect_a(ca, cm); xcm_attr_map_destroy(cm);
+        bool dropped = n2 == NULL;
+        for (int i = 0; n2 && i < 3000 && !dropped; i++) { char b8[8]; int n = xcm_receive(n2, b8, sizeof b8); if (n == 0 || (n < 0 && errno != EAGAIN)) dropped = true; else { struct pollfd none; vs_real_poll(&none, 0, 1); } }
+        if (n2) xcm_close(n2);
+        vobs(dropped ? "newcomer_dropped_while_server_not_listening" : "newcomer_kept_while_server_not_listening", 1);
+        struct xcm_attr_map *sm2 = xcm_attr_map_create(); xcm_attr_map_add_bool(sm2, "xcm.blocking", false); if (leg_bs(c.l2)) xcm_attr_map_add_str(sm2, "xcm.service", "bytestream");
+        for (int t = 0; t < 200 && !S.s; t++) { struct vs_scope sc = { .active = true, .nonblocking = true, .api = "xcm_server_a", .ep = 50, .plan = &S.plan }; vs_enter(&sc); S.s = xcm_server_a(a2, sm2); vs_leave(); if (!S.s) { struct pollfd none; vs_real_poll(&none, 0, 10); } }
+        xcm_attr_map_destroy(sm2);
+        if (!S.s) { vobs("setup_failed", 1); goto out; }
+    }
 
     /* ---- traffic ---- */
     for (int i = 0; i < c.nconn; i++) { rc[i].budget_c = c.nmsg; rc[i].budget_a = c.pattern == 1 && c.closer_is_client ? 0 : c.nmsg; if (c.pattern == 1 && !c.closer_is_client) rc[i].budget_c = 0; }
@@ -278,7 +295,7 @@ static void one_case(long idx, void *arg)
         } else vobs("relay_served_again", 1);
         if (nc.s) xcm_close(nc.s); if (na.s) xcm_close(na.s);
     }
-    { char sg[100]; snprintf(sg, sizeof sg, "%s>%s|n%d|p%d|pre%d|%d", leg_name[c.l1], leg_name[c.l2], c.nconn > 1, c.pattern, c.preload, c.closer_is_client); vsig_str(sg); }
+    { char sg[100]; snprintf(sg, sizeof sg, "%s>%s|n%d|p%d|pre%d|%d|r%d", leg_name[c.l1], leg_name[c.l2], c.nconn > 1, c.pattern, c.preload, c.closer_is_client, c.refuse); vsig_str(sg); }
 out:
     for (int i = 0; i < c.nconn; i++) { if (rc[i].c.s) vx_close(&rc[i].c); if (rc[i].a.s) vx_close(&rc[i].a); veng_ep_free(&rc[i].c); veng_ep_free(&rc[i].a); }
     if (S.s) vx_close(&S);
